@@ -279,6 +279,31 @@ func (c *Ctx) rulesC04(a *coreAnchors, la *LockAnalysis) {
 						}
 					}
 				}
+				// the same helper reporting "nothing there" with a second bool result
+				if ex, ok := g.Cond.(*ssa.Extract); ok && !g.Pol {
+					if hc, ok := ex.Tuple.(*ssa.Call); ok {
+						if h := hc.Call.StaticCallee(); h != nil && h != pq && c.hostedBy(h, pq) {
+							for _, hr := range returnsOf(h) {
+								if ex.Index >= len(retVals(hr)) {
+									continue
+								}
+								if k, isK := constBool(retVals(hr)[ex.Index]); !isK || k {
+									continue
+								}
+								for _, hg := range guardsOf(hr.Block()) {
+									hv, hneg := stripNot(hg.Cond)
+									if b, ok := hv.(*ssa.BinOp); ok && (hg.Pol != hneg) && b.Op == token.LSS {
+										if lc, ok := b.X.(*ssa.Call); ok {
+											if bi, ok := lc.Call.Value.(*ssa.Builtin); ok && bi.Name() == "len" && loadOfField(lc.Call.Args[0]) == a.fQueue {
+												defensive = true
+											}
+										}
+									}
+								}
+							}
+						}
+					}
+				}
 				// defensive branch: len(m.queue) < 1 although queueLen > 0
 				v, neg := stripNot(g.Cond)
 				if b, ok := v.(*ssa.BinOp); ok && (g.Pol != neg) && b.Op == token.LSS {
@@ -312,7 +337,7 @@ func (c *Ctx) rulesC04(a *coreAnchors, la *LockAnalysis) {
 		}
 		// re-examination after release
 		var rel ssa.Instruction
-		for _, s := range c.sitesIn(pq, "method:Bool.Store") {
+		for _, s := range c.innerSites(pq, "method:Bool.Store") {
 			if id, op, args := atomicOp(s.Common()); id == qLock && op == "Store" && len(args) == 1 {
 				if v, ok := constBool(args[0]); ok && !v {
 					rel = s
